@@ -8,7 +8,7 @@ from typing import Dict, List, Optional, Set, Tuple
 from ..core import astutil as A
 from ..core.index import AnalysisError, FuncInfo
 from ..selftest import M
-from .common import (BASE_FILTER, BASE_IFILTER, T, attr_stores, calls_named, conds, entails, every_origin, facts, key, need,
+from .common import (param_mutated, BASE_FILTER, BASE_IFILTER, T, attr_stores, calls_named, conds, entails, every_origin, facts, key, need,
                      subscript_stores, where)
 from . import c07
 
@@ -138,6 +138,35 @@ def check_no_filter_state(prog, chk, rule="R14.2"):
                     ok = chain[0] == "context"
                     chk.ob(rule, f"{m.short}|{A.keytext(m.node, c)}", ok, where(m, c), detail=f"mutation of self.{'.'.join(chain)}",
                            message=f"{m.short} mutates self.{'.'.join(chain)}, state that is not reset per call")
+            # a container kept on the filter object and handed to a function that fills it (a cache passed as an argument)
+            for c in A.body_nodes(m.node):
+                if not isinstance(c, ast.Call):
+                    continue
+                handed = [(i, a) for i, a in enumerate(c.args)] + [(k.arg, k.value) for k in c.keywords if k.arg]
+                handed = [(pos, a) for pos, a in handed if _self_chain(a) and _self_chain(a)[0] not in ("context", "options")]
+                if not handed:
+                    continue
+                try:
+                    ts, how = prog.resolve_callee(m, c.func)
+                except Exception:
+                    continue
+                if how != "exact" or len(ts) != 1 or not hasattr(ts[0], "params") or isinstance(ts[0].node, ast.Lambda):
+                    continue
+                t = ts[0]
+                ps = t.params()
+                if t.cls is not None and not t.is_static and isinstance(c.func, ast.Attribute):
+                    ps = ps[1:]
+                for pos, a in handed:
+                    pn = ps[pos] if isinstance(pos, int) and pos < len(ps) else pos if isinstance(pos, str) and pos in ps else None
+                    if pn is None:
+                        continue
+                    hit = param_mutated(prog, t, pn)
+                    if hit is not None:
+                        n += 1
+                        chain = _self_chain(a)
+                        chk.ob(rule, f"{m.short}|{A.keytext(m.node, c)}|self.{'.'.join(chain)} filled by {t.short}", False, where(m, c), detail=T(hit, 60),
+                               message=f"{m.short} hands self.{'.'.join(chain)} to {t.short}, which fills it in place (`{T(hit, 50)}`): state kept on the filter object "
+                                       f"that is not reset per call - a filter object reused for another font answers from what it saw in the previous one")
     from .c08 import check_memo_decorators
     n += check_memo_decorators(prog, chk, rule, only_modules=("ufo2ft.filters",))
     chk.minimum(rule, 5) if rule != "R14.2" else None
@@ -718,6 +747,10 @@ def _CHAIN(inc, exc):
 
 
 MUTANTS = [
+    M("flattening memoised in a dict kept on the filter object and filled by the helper (seeded C15j)", "ufo2ft/filters/flattenComponents.py", "FlattenComponentsFilter.filter",
+      "return _flattenGlyphComponents(glyph, self.context.glyphSet)", "return _note(_flattenGlyphComponents(glyph, self.context.glyphSet), glyph, self._flattened)", rule="R14.2",
+      also=(("ufo2ft/filters/flattenComponents.py", "FlattenComponentsFilter", "<add-method>", "def start(self):\n    self._flattened = {}\n"),
+            ("ufo2ft/filters/flattenComponents.py", "", "<append-module>", "def _note(result, glyph, cache):\n    cache[glyph.name] = result\n    return result\n"))),
     M("include list tested by truthiness: an empty include list means 'all glyphs' (seeded C14i)", "ufo2ft/filters/base.py", "BaseFilter.__init__",
       _CHAIN("include is not None", "exclude is not None"), _CHAIN("include", "exclude is not None"), rule="R14.6"),
     M("exclude list tested by truthiness", "ufo2ft/filters/base.py", "BaseFilter.__init__",
